@@ -44,6 +44,25 @@ func c14(cx *Ctx, r *ev.Report) {
 	}
 	r.Analysed["arms_assigning_I"] = chI
 	r.Analysed["arms_assigning_R"] = chR7
+	// 3b. Step itself: on the rows of the decision table that execute the
+	//     instruction at PC, R and I are what the decoder left - so every Step,
+	//     also one spent halted (the HALT opcode is re-decoded), counts its
+	//     fetches; on no row is I changed
+	if sa := cx.stepAnalysis(); sa.err != nil {
+		r.Undecide("C14/step", "REFRESH(step row)", cx.P.Pos(cx.E.Step.Pos()), sa.err.Error())
+	} else {
+		ruleT := "REFRESH(step row): after a Step on a row that executes the instruction at PC (no request, refused request) the decoder was run exactly once from the unmodified state and R, I are what it left (every Step, also one spent halted, counts its opcode fetches); on the accepting rows I is unchanged"
+		for _, row := range sa.rows {
+			executes := row.name == "no-request" || row.name == "refused" || row.name == "IM-other"
+			ds := diffStrings(cx.E.CompareUnder(sa.impl, sa.ref, row.pred), func(d engine.Diff) bool {
+				if d.Cat == "state" && d.What == isa.LocI {
+					return true
+				}
+				return executes && ((d.Cat == "state" && d.What == isa.LocR) || (d.Cat == "event" && d.What == isa.KindExec))
+			})
+			r.Check(len(ds) == 0, "C14/step/row="+row.name, ruleT, cx.P.Pos(cx.E.Step.Pos()), "summary-equality", ds...)
+		}
+	}
 	// 4. the opcode-fetch helper, found by role: the callee whose result the
 	//    decoder's first switch tests
 	c14FetchHelper(cx, r)
